@@ -39,7 +39,9 @@ static bool onlyExisting(const object::StructuredData& d, const TextInterpretati
 extern "C" void harness_main() {
   RSModel m;
   const auto x1 = m.Emplace(CstType::base);
-  const auto s1 = m.Emplace(CstType::structured, "\xE2\x84\xAC(X1)");
+  // S1 is created first, or inserted as a copied record AFTER the definitions that mention it (forward references, e.g. an undo)
+  const bool late = sym_bool("structure-inserted-late");
+  EntityUID s1 = late ? EntityUID{0} : m.Emplace(CstType::structured, "\xE2\x84\xAC(X1)");
   const auto f1 = m.Emplace(CstType::function, FDEF[0]);
 #ifdef FIXED_TEMPLATES
   const auto d1 = m.Emplace(CstType::term, T1[3]);
@@ -52,12 +54,13 @@ extern "C" void harness_main() {
 #endif
   m.Values().AddBasicElement(x1, "a");
   m.Values().AddBasicElement(x1, "b");
+  // structures that are not sets: an element of X1 and a pair over X1 (pruned as a whole when a component disappears); in the
+  // late variant they are left out so that nothing rebuilds the dependency graph between the late insertion and the edits
+  EntityUID s2 = 0, s3 = 0;
+  if (!late) { s2 = m.Emplace(CstType::structured, "X1"); s3 = m.Emplace(CstType::structured, "X1\xC3\x97X1"); }
+  else { ConceptRecord r; r.uid = 9001; r.alias = "S1"; r.type = CstType::structured; r.rs = "\xE2\x84\xAC(X1)"; s1 = m.InsertCopy(r); }
   m.Values().SetStructureData(s1, Factory::SetV({1}));
-  // structures that are not sets: an element of X1 and a pair over X1 (pruned as a whole when a component disappears)
-  const auto s2 = m.Emplace(CstType::structured, "X1");
-  const auto s3 = m.Emplace(CstType::structured, "X1\xC3\x97X1");
-  m.Values().SetStructureData(s2, Factory::Val(2));
-  m.Values().SetStructureData(s3, Factory::Tuple({Factory::Val(1), Factory::Val(2)}));
+  if (!late) { m.Values().SetStructureData(s2, Factory::Val(2)); m.Values().SetStructureData(s3, Factory::Tuple({Factory::Val(1), Factory::Val(2)})); }
   m.Calculations().RecalculateAll();
   std::vector<EntityUID> all{x1, s1, d1, d2, a1, f1};
   const std::vector<EntityUID> structures{s1, s2, s3};
